@@ -19,6 +19,11 @@ BIN_RULES = {"additive_expr": "bin", "multiplicative_expr": "bin", "and_expr": "
 WIDE_ALIASES = {"UPCYCLE", "PKTCOUNT", "UTIMER"}
 
 
+def gen_src(e):
+    import gen
+    return gen.src(e)
+
+
 class Unmodelled(Exception):
     pass
 
@@ -54,6 +59,16 @@ def type_of_specifier(ts):
         if t == "unsigned":
             return "unsigned", (False, 32)
         raise Unmodelled(f"type {t}")
+    raise Unmodelled("composite type specifier")
+
+
+def type_of_specifier_list(items):
+    """`unsigned int` (the only multi-word type name the transformer accepts) and `const T`"""
+    sp = [type_of_specifier(x) if is_tree(x) else (tok(x), None) for x in items]
+    if len(sp) == 2 and sp[0][0] == "unsigned" and sp[1][0] == "int":
+        return "unsigned int", (False, 32)
+    if len(sp) == 2 and sp[0] == ("const", None) and sp[1][1] is not None:
+        return "const " + sp[1][0], sp[1][1]
     raise Unmodelled("composite type specifier")
 
 
@@ -126,9 +141,12 @@ class Elab:
             if l:
                 return l
             tn = ch[0]
-            if not (is_tree(tn) and tn.data == "type_specifier"):
+            if is_tree(tn) and tn.data == "specifier_qualifier_list":
+                spelling, t = type_of_specifier_list(tn.children)
+            elif not (is_tree(tn) and tn.data == "type_specifier"):
                 raise Unmodelled("cast to a composite type name")
-            spelling, t = type_of_specifier(tn)
+            else:
+                spelling, t = type_of_specifier(tn)
             return ("cast", spelling, t, self.expr(ch[1]))
         if d == "unary_expr":
             op = tok(ch[0])
@@ -166,6 +184,13 @@ class Elab:
             return ("macro", name, args, ret)
         if d == "sub_routine":
             name = tok(ch[0].children[0]) if is_tree(ch[0]) else tok(ch[0])
+            if name == "sizeof" and len(ch) == 2:
+                # `sizeof(x)`: a compile-time constant, ceil(width of x / 8); printed back as written
+                a = self.expr(ch[1])
+                if a[0] not in ("reg", "var", "imm"):
+                    raise Unmodelled("sizeof of an expression")
+                w = a[2][1]
+                return ("lit", f"sizeof({gen_src(a)})", (w + 7) // 8, (True, 32))
             if name not in self.subs:
                 raise Unmodelled(f"call of {name}")
             params, ret = self.subs[name]
@@ -234,9 +259,12 @@ class Elab:
 
     def declaration(self, n):
         ch = n.children
-        if not (is_tree(ch[0]) and ch[0].data == "type_specifier"):
+        if is_tree(ch[0]) and ch[0].data == "declaration_specifiers":
+            spelling, t = type_of_specifier_list(ch[0].children)
+        elif not (is_tree(ch[0]) and ch[0].data == "type_specifier"):
             raise Unmodelled("declaration specifiers")
-        spelling, t = type_of_specifier(ch[0])
+        else:
+            spelling, t = type_of_specifier(ch[0])
         if len(ch) == 2 and not is_tree(ch[1]):
             name = tok(ch[1])
             self.locals[name] = t
